@@ -695,6 +695,11 @@ def run(chk: core.Check) -> None:
         print(f'  {name}: trees={len(trees)} states={n_states} edges={n_edges} tlc={r.wall_s:.1f}s '
               f'replay={time.time() - t0:.1f}s', flush=True)
     chk.coverage['exhaustive'] = True
+    cov = chk.coverage
+    if not (cov.get('transitions') and cov.get('distinct_nontrivial') and cov.get('second_oracle_evaluations')
+            and cov.get('roundtrip_evaluations')):
+        raise tla.MachineryError(f'vacuous run: transitions={cov.get("transitions")} nontrivial='
+                                 f'{cov.get("distinct_nontrivial")} second_oracle={cov.get("second_oracle_evaluations")}')
     chk.coverage['rule'] = ('every state of the TLC graph of PathStrings is one node of one tree (validated on each library: '
                             'all path strings + round trips); every edge is one path step replayed from the real parent '
                             'node; non-trivial = the node has a sibling of the same node kind, so the position / name '
